@@ -87,9 +87,22 @@ class Files(object):
         self.path = os.path.join(self.dir, 'm.fcs')
 
     def load(self, pairs, events, version, bits=16):
+        import re
         D = len(events[0])
         data = fcsgen.pack_events(events, [bits] * D, False, 'I')
-        blob, _ = fcsgen.build(version=version, pairs=pairs, data=data)
+        # in FCS3.x the optional keywords may live in the supplemental TEXT segment, which may or may not start with the
+        # delimiter: every third file keeps them in the primary segment, the others move them (led / bare)
+        self.n = getattr(self, 'n', 0) + 1
+        supp = None
+        lead = True
+        if version != 'FCS2.0' and self.n % 3:
+            req = re.compile(r'^\$(BYTEORD|DATATYPE|MODE|NEXTDATA|PAR|TOT|P\d+[BRNE])$')
+            opt = [kv for kv in pairs if not req.match(kv[0])]
+            if opt:
+                pairs = [kv for kv in pairs if req.match(kv[0])]
+                supp = opt
+                lead = self.n % 3 == 1
+        blob, _ = fcsgen.build(version=version, pairs=pairs, data=data, supp_pairs=supp, supp_lead=lead)
         with open(self.path, 'wb') as f:
             f.write(blob)
         with warnings.catch_warnings():
